@@ -84,7 +84,7 @@ func scenStream(s *spec.RunSpec, res *spec.RunResult, finish func(*World)) {
 func (w *World) destroyingFaults() bool {
 	for _, f := range w.Spec.Net.Stream {
 		switch f.Kind {
-		case "rewrite", "cut-fin", "cut-rst", "reset-at", "blackhole-at", "cutfin-at":
+		case "rewrite", "xor", "cut-fin", "cut-rst", "reset-at", "blackhole-at", "cutfin-at":
 			return true
 		}
 	}
@@ -108,7 +108,7 @@ func (w *World) finalChecks(capHit bool) {
 	nontrivial := true
 	for _, rt := range sess {
 		prop := rt.streamProp()
-		udp := prop == "C02"
+		udp := rt.cli.spec.Transport == "udp"
 		completeExpected := rt.spec.CloseMode == "barrier" || rt.spec.CloseMode == "none"
 		if w.destroyingFaults() {
 			completeExpected = false
